@@ -17,10 +17,27 @@ def sarg(s):
     return ",".join(str(ord(c)) for c in s) if s else "-"
 
 
+def all_table_keys():
+    """every (symbol, isotope) key of the regenerated table as `Sym:iso`"""
+    import json
+    from .common import WORK
+    out = []
+    try:
+        rows = [json.loads(l) for l in (WORK / "dump.jsonl").read_text().splitlines() if l.strip()]
+    except OSError:
+        return list(KEYS)
+    for x in rows:
+        if x["table"] == "global":
+            out.append(f"{x['symbol']}:0")
+            out += [f"{x['symbol']}:{i['key']}" for i in x["isotopes"] if i["key"] != 0]
+    return out
+
+
 class Gen:
     """sequence generator tracking a bound on |count| per register so that no i32 overflow occurs"""
 
-    def __init__(self, rng, nregs=3):
+    def __init__(self, rng, nregs=3, keys=None):
+        self.keys = keys or KEYS
         self.rng = rng
         self.n = nregs
         self.bound = [0] * nregs
@@ -43,10 +60,17 @@ class Gen:
     def random_op(self, allow_conv=True, allow_gsm=True, allow_bad_write=False):
         g = self.rng
         r = g.randrange(self.n)
-        k = g.choice(KEYS)
+        k = g.choice(self.keys)
         v = g.randint(-50, 50)
         if g.random() < 0.15:
             v = g.choice([0, 1, -1])
+        if g.random() < 0.06 and v != 0 and self.bound[r] + 2 * abs(v) <= LIMIT:
+            # a count that goes up and comes back to exactly where it was (an explicit zero entry if it was absent)
+            a, b2 = g.sample(["inc", "iadd", "sadd"], 2) if k.endswith(":0") and k.split(":")[0].isalpha() else g.sample(["inc", "iadd"], 2)
+            for name, val in ((a, v), (b2, -v)):
+                arg = sarg(k.split(":")[0]) if name == "sadd" else k
+                self.emit(f"{name} {r} {arg} {val}", r, self.bound[r] + abs(val))
+            return True
         kind = g.choices(
             ["set", "inc", "iset", "iadd", "sset", "sadd", "incs", "gsm", "fmass", "mul", "muli", "neg",
              "add", "sub", "addi", "subi", "itm", "clone", "conv", "fromkv", "get", "idx", "gets", "sidx",
@@ -200,16 +224,20 @@ def gen_cases(seed, tier):
             gid += 1
             for f in FORMS:
                 cases.append(dict(kind="lockstep", form=f, ops=render_uniform(ops, f), group=f"ex{gid}", nregs=2))
-    # 3. random long histories: lock-step groups and mixed-representation ones
+    # 3. random long histories: lock-step groups and mixed-representation ones; one in eight draws its keys from a
+    #    pool of 70 keys of the whole table, so that compositions grow past 8, 16, 32, 64 entries (growth of the
+    #    vector, resizes of the hash table, any size-triggered switch of representation)
     nrand = 6000 if tier == "thorough" else 500
+    table_keys = all_table_keys()
     for i in range(nrand):
-        g = Gen(rng, 3)
+        wide = i % 8 == 5
+        g = Gen(rng, 3, keys=rng.sample(table_keys, min(70, len(table_keys))) if wide else None)
         lock = i % 2 == 0
         g.start(["vec"] * 3 if lock else [rng.choice(FORMS) for _ in range(3)])
         # populate the registers first so that most operations act on non-empty compositions
         for reg in range(3):
             if rng.random() < 0.8:
-                ps = [(rng.choice(KEYS), rng.randint(-50, 50)) for _ in range(rng.randint(1, 5))]
+                ps = [(rng.choice(g.keys), rng.randint(-50, 50)) for _ in range(rng.randint(20, 70) if wide else rng.randint(1, 5))]
                 f = g.form[reg]
                 g.emit("fromkv %d %s %s %s" % (reg, f, rng.choice(["vecES", "iterES", "vecStr", "iterStr"]),
                                                 ",".join(f"{k}={v}" for k, v in ps)), reg, sum(abs(v) for _, v in ps))
